@@ -164,7 +164,7 @@ pub fn concretize(ctx: &Ctx, e: &Entry, prop: &str, pl: &Plan, max_ops: usize, a
         Kind::Oob => {
             let f = arr[pick(a.f, arr.len())];
             let fc = &ctx.fields[f];
-            let i = conc_oob(fc.count, a.i);
+            let i = conc_oob(fc.count, ctx.layout.fields[f].stride(), a.i);
             let mut ops: Vec<u8> = Vec::new();
             if fc.readable {
                 ops.push(0);
